@@ -6,12 +6,15 @@
 verus! {
 
 pub open spec fn off_str_inc(s: Seq<Offset>) -> bool { forall |i: int, k: int| #![trigger s[i], s[k]] 0 <= i < k < s.len() ==> s[i].val < s[k].val }
-/// s lists, strictly increasing, exactly the offsets 0 <= a < hz at which f steps (f(a) < f(a + 1))
+/// s is strictly increasing, every offset in it is one at which f steps (f(a) < f(a + 1)), and every such offset below hz is in it
 pub open spec fn offsets_exact(s: Seq<Offset>, f: spec_fn(int) -> int, hz: int) -> bool {
     &&& off_str_inc(s)
-    &&& forall |a: int| #[trigger] off_has(s, a) <==> (0 <= a < hz && f(a) < f(a + 1))
+    &&& forall |a: int| #[trigger] off_has(s, a) ==> a >= 0 && f(a) < f(a + 1)
+    &&& forall |a: int| 0 <= a < hz && f(a) < f(a + 1) ==> #[trigger] off_has(s, a)
 }
 
+/// all offsets are below ub
+pub open spec fn off_lt(s: Seq<Offset>, ub: int) -> bool { forall |i: int| 0 <= i < s.len() ==> (#[trigger] s[i]).val < ub }
 /// tw is what `take_while(|A| *A < max)` keeps of offs
 pub open spec fn tw_of(tw: Seq<Offset>, offs: Seq<Offset>, max: int) -> bool {
     &&& tw.len() <= offs.len() && tw == offs.take(tw.len() as int)
@@ -22,15 +25,19 @@ pub open spec fn tw_of(tw: Seq<Offset>, offs: Seq<Offset>, max: int) -> bool {
 pub trait RequestSteps: RequestBound {
     spec fn rsteps_ok(&self, n: int) -> bool;
     spec fn rsteps_hz(&self, n: int) -> int;
+    spec fn rsteps_ub(&self, n: int) -> int;
     proof fn rsteps_hz_unbounded(&self, h: int) -> (n: int)
         requires self.wf()
         ensures n >= 0, self.rsteps_hz(n) >= h;
+    proof fn rsteps_hz_mono(&self, n1: int, n2: int)
+        requires self.wf(), 0 <= n1 <= n2
+        ensures self.rsteps_hz(n1) <= self.rsteps_hz(n2);
 
 //@item src/demand/mod.rs :: trait RequestBound / fn steps_iter
     fn steps_iter<'a>(&'a self/*+*/, vf_n: usize/*-*/) -> /*+*/(r: /*-*//*@R21: Box<dyn Iterator<Item = Duration> + 'a> @*/VfStream<Duration>/*@.*//*+*/)
         requires self.wf(), self.rsteps_ok(vf_n as int)
         ensures steps_exact(r.0@, rbf_fn(self), self.rsteps_hz(vf_n as int)),
-                forall |i: int| 0 <= i < r.0@.len() ==> 1 <= (#[trigger] r.0@[i]).val <= self.rsteps_hz(vf_n as int)/*-*/;
+                forall |i: int| 0 <= i < r.0@.len() ==> 1 <= (#[trigger] r.0@[i]).val <= self.rsteps_ub(vf_n as int)/*-*/;
 //@end
 }
 
@@ -38,9 +45,8 @@ pub proof fn lemma_steps_exact_transfer(s: Seq<Duration>, f: spec_fn(int) -> int
     requires steps_exact(s, f, hz), forall |d: int| d >= 1 ==> (f(d - 1) < f(d)) == (g(d - 1) < #[trigger] g(d))
     ensures steps_exact(s, g, hz)
 {
-    assert forall |d: int| #[trigger] has(s, d) <==> (1 <= d <= hz && g(d - 1) < g(d)) by {
-        if d >= 1 { assert((f(d - 1) < f(d)) == (g(d - 1) < g(d))); }
-    }
+    assert forall |d: int| #[trigger] has(s, d) implies d >= 1 && g(d - 1) < g(d) by { assert((f(d - 1) < f(d)) == (g(d - 1) < g(d))); }
+    assert forall |d: int| 1 <= d <= hz && g(d - 1) < g(d) implies #[trigger] has(s, d) by { assert((f(d - 1) < f(d)) == (g(d - 1) < g(d))); }
 }
 
 /// every job has a positive cost (C11: "for request bounds this presupposes that every job has a positive cost")
@@ -58,14 +64,16 @@ pub proof fn lemma_scalar_strict(c: &Scalar)
 impl<B: ArrivalSteps, C: JobCostModel> RequestSteps for RBF<B, C> {
     open spec fn rsteps_ok(&self, n: int) -> bool { self.arrival_bound.steps_ok(n) && cost_strict(&self.wcet) }
     open spec fn rsteps_hz(&self, n: int) -> int { self.arrival_bound.steps_hz(n) }
+    open spec fn rsteps_ub(&self, n: int) -> int { self.arrival_bound.steps_ub(n) }
     proof fn rsteps_hz_unbounded(&self, h: int) -> (n: int) { self.arrival_bound.steps_hz_unbounded(h) }
+    proof fn rsteps_hz_mono(&self, n1: int, n2: int) { self.arrival_bound.steps_hz_mono(n1, n2); }
 //@item src/demand/rbf.rs :: impl<B: ArrivalBound, C: JobCostModel> RequestBound for RBF<B, C> / fn steps_iter
     fn steps_iter<'a>(&'a self/*+*/, vf_n: usize/*-*/) -> /*+*/(r: /*-*//*@R21: Box<dyn Iterator<Item = Duration> + 'a> @*/VfStream<Duration>/*@.*//*+*/)/*-*/ {
         /*+*/let vf_r = /*-*/self.arrival_bound.steps_iter(/*+*/vf_n/*-*/)/*+*/;
         proof {
             // the request bound steps exactly where the arrival bound does
             self.wcet.cost_props(); self.arrival_bound.na_props();
-            let f = |x: int| self.arrival_bound.na(x);
+            let f = nafn(&self.arrival_bound);
             let g = rbf_fn(self);
             assert forall |d: int| d >= 1 implies (f(d - 1) < f(d)) == (g(d - 1) < #[trigger] g(d)) by {
                 let (n0, n1) = (self.arrival_bound.na(d - 1), self.arrival_bound.na(d));
@@ -73,7 +81,7 @@ impl<B: ArrivalSteps, C: JobCostModel> RequestSteps for RBF<B, C> {
                 if n0 < n1 { assert(self.wcet.cost(n0) < self.wcet.cost(n1)); } else { assert(n0 == n1); }
             }
             lemma_steps_exact_transfer(vf_r.0@, f, g, self.arrival_bound.steps_hz(vf_n as int));
-            assert forall |i: int| 0 <= i < vf_r.0@.len() implies 1 <= (#[trigger] vf_r.0@[i]).val <= self.arrival_bound.steps_hz(vf_n as int) by { assert(has(vf_r.0@, vf_r.0@[i].v())); }
+            assert forall |i: int| 0 <= i < vf_r.0@.len() implies 1 <= (#[trigger] vf_r.0@[i]).val <= self.arrival_bound.steps_ub(vf_n as int) by { assert(has(vf_r.0@, vf_r.0@[i].v())); }
         }
         vf_r/*-*/
     }
@@ -84,29 +92,12 @@ impl<B: ArrivalSteps, C: JobCostModel> RequestSteps for RBF<B, C> {
 pub fn step_offsets/*+*/<RB: RequestSteps + ?Sized>/*-*/(rb: &'_ /*@R22: (impl RequestBound + ?Sized) @*/RB/*@.*//*+*/, vf_n: usize/*-*/) -> /*+*/(r: /*-*//*@R21: impl Iterator<Item = Offset> + '_ @*/VfStream<Offset>/*@.*//*+*/)
     requires rb.wf(), rb.rsteps_ok(vf_n as int)
     ensures offsets_exact(r.0@, rbf_fn(rb), rb.rsteps_hz(vf_n as int)),
-            forall |i: int| 0 <= i < r.0@.len() ==> (#[trigger] r.0@[i]).val < rb.rsteps_hz(vf_n as int)
+            off_lt(r.0@, rb.rsteps_ub(vf_n as int))
 /*-*/{
     /*@R21: rb.steps_iter() @*/let vf_st = rb.steps_iter(vf_n);
     let ghost st = vf_st.0@;
-    proof { assert forall |i: int| 0 <= i < st.len() implies (#[trigger] st[i]).val >= 1 by { assert(has(st, st[i].v())); } }
     let vf_r = vf_st/*@.*/.map(Offset::closed_from_time_zero/*+*/, Ghost(|delta: Duration| Offset { val: (delta.val - 1) as u64 })/*-*/)/*+*/;
-    proof {
-        let s = vf_r.0@;
-        assert forall |i: int, k: int| #![trigger s[i], s[k]] 0 <= i < k < s.len() implies s[i].val < s[k].val by { assert(st[i].val < st[k].val); assert(has(st, st[i].v())); assert(has(st, st[k].v())); }
-        assert forall |a: int| #[trigger] off_has(s, a) <==> (0 <= a < rb.rsteps_hz(vf_n as int) && rbf_fn(rb)(a) < rbf_fn(rb)(a + 1)) by {
-            if off_has(s, a) {
-                let i = choose |i: int| 0 <= i < s.len() && (#[trigger] s[i]).val == a;
-                assert(has(st, st[i].v()));
-                assert(st[i].val == a + 1);
-            }
-            if 0 <= a < rb.rsteps_hz(vf_n as int) && rbf_fn(rb)(a) < rbf_fn(rb)(a + 1) {
-                assert(has(st, a + 1));
-                let i = choose |i: int| 0 <= i < st.len() && (#[trigger] st[i]).val == a + 1;
-                assert(s[i].val == a);
-            }
-        }
-        assert forall |i: int| 0 <= i < s.len() implies (#[trigger] s[i]).val < rb.rsteps_hz(vf_n as int) by { assert(has(st, st[i].v())); }
-    }
+    proof { lemma_steps_to_offsets(st, rbf_fn(rb), rb.rsteps_hz(vf_n as int), vf_r.0@); }
     vf_r/*-*/
 }
 //@end
@@ -126,7 +117,9 @@ impl<T: RequestBound + ?Sized> RequestBound for &T {
 impl<T: RequestSteps + ?Sized> RequestSteps for &T {
     open spec fn rsteps_ok(&self, n: int) -> bool { (**self).rsteps_ok(n) }
     open spec fn rsteps_hz(&self, n: int) -> int { (**self).rsteps_hz(n) }
+    open spec fn rsteps_ub(&self, n: int) -> int { (**self).rsteps_ub(n) }
     proof fn rsteps_hz_unbounded(&self, h: int) -> (n: int) { (**self).rsteps_hz_unbounded(h) }
+    proof fn rsteps_hz_mono(&self, n1: int, n2: int) { (**self).rsteps_hz_mono(n1, n2); }
     fn steps_iter<'a>(&'a self, vf_n: usize) -> (r: VfStream<Duration>) {
         let r = (**self).steps_iter(vf_n);
         proof { lemma_steps_exact_transfer(r.0@, rbf_fn(*self), rbf_fn(self), self.rsteps_hz(vf_n as int)); }
@@ -138,7 +131,8 @@ pub proof fn lemma_offsets_exact_transfer(s: Seq<Offset>, f: spec_fn(int) -> int
     requires offsets_exact(s, f, hz), forall |x: int| f(x) == #[trigger] g(x)
     ensures offsets_exact(s, g, hz)
 {
-    assert forall |a: int| #[trigger] off_has(s, a) <==> (0 <= a < hz && g(a) < g(a + 1)) by { assert(f(a) == g(a) && f(a + 1) == g(a + 1)); }
+    assert forall |a: int| #[trigger] off_has(s, a) implies a >= 0 && g(a) < g(a + 1) by { assert(f(a) == g(a) && f(a + 1) == g(a + 1)); }
+    assert forall |a: int| 0 <= a < hz && g(a) < g(a + 1) implies #[trigger] off_has(s, a) by { assert(f(a) == g(a) && f(a + 1) == g(a + 1)); }
 }
 
 
@@ -148,17 +142,15 @@ pub proof fn lemma_steps_to_offsets(st: Seq<Duration>, f: spec_fn(int) -> int, h
     ensures offsets_exact(s, f, hz)
 {
     assert forall |i: int, k: int| #![trigger s[i], s[k]] 0 <= i < k < s.len() implies s[i].val < s[k].val by { assert(st[i].val < st[k].val); }
-    assert forall |a: int| #[trigger] off_has(s, a) <==> (0 <= a < hz && f(a) < f(a + 1)) by {
-        if off_has(s, a) {
-            let i = choose |i: int| 0 <= i < s.len() && (#[trigger] s[i]).val == a;
-            assert(has(st, st[i].v()));
-            assert(st[i].val == a + 1);
-        }
-        if 0 <= a < hz && f(a) < f(a + 1) {
-            assert(has(st, a + 1));
-            let i = choose |i: int| 0 <= i < st.len() && (#[trigger] st[i]).val == a + 1;
-            assert(s[i].val == a);
-        }
+    assert forall |a: int| #[trigger] off_has(s, a) implies a >= 0 && f(a) < f(a + 1) by {
+        let i = choose |i: int| 0 <= i < s.len() && (#[trigger] s[i]).val == a;
+        assert(has(st, st[i].v()));
+        assert(st[i].val == a + 1);
+    }
+    assert forall |a: int| 0 <= a < hz && f(a) < f(a + 1) implies #[trigger] off_has(s, a) by {
+        assert(has(st, a + 1));
+        let i = choose |i: int| 0 <= i < st.len() && (#[trigger] st[i]).val == a + 1;
+        assert(s[i].val == a);
     }
 }
 
